@@ -83,10 +83,10 @@ pub fn run(tier: Tier, seed: u64) -> i32 {
     ctx.set_rule("proptest: public configuration (circuit, n in 2..4, p_eval, p_out) x K=4 executions with independently generated inputs, engine coins, schedules, link capacities and tmp_dir choices; oracle: for every ordered pair the sequence of (label, byte length) of the messages sent is identical in all K executions (metamorphic relation, no decoding); non-trivial = >=1 AND gate and inputs differing between the executions; distinct by hash of the case; evaluations counts engine executions");
     ctx.assume("per ordered pair the order of sends is the sender's program order (monitor m1: one send outstanding per peer)");
     let cp = CircParams { n_min: 2, n_max: 4, max_gates: 30, ..Default::default() };
-    prop_search(&ctx, "c09", tier.pick(96, 1000), || gen_c09(cp.clone(), 4), test_case);
+    prop_search(&ctx, "c09", tier.pick(96, 4000), || gen_c09(cp.clone(), 4), test_case);
     if !ctx.stopped() {
         // wide circuits: > 64 unique outputs, many inputs (message sizes in other ranges)
-        prop_search(&ctx, "c09wide", tier.pick(16, 200), || gen_c09(CircParams::wide(2, 3), 3), test_case);
+        prop_search(&ctx, "c09wide", tier.pick(16, 800), || gen_c09(CircParams::wide(2, 3), 3), test_case);
     }
     if tier == Tier::Thorough && !ctx.stopped() {
         let big = CircParams { n_min: 2, n_max: 3, max_gates: 8, bulk: vec![1001, 2500], bulk_prob: 255, ..Default::default() };
